@@ -386,7 +386,7 @@ class SRC:
 
         if config.allow_plugins:
             value = self.parse(hexwords)
-            if value != '' and value != 'null':
+            if value and value != 'null':
                 out["SRC Details"] = json.loads(value)
 
         return out
